@@ -116,8 +116,11 @@ func (f *fileStorage) KeysWithSuffix(suffix string) (keys []string, err error) {
 
 	if infos, err = ioutil.ReadDir(f.dir()); err == nil {
 		for _, info := range infos {
-			if info.IsDir() == false && strings.HasPrefix(info.Name(), tempFilePrefix) == false && strings.HasSuffix(info.Name(), suffix) == true {
-				keys = append(keys, info.Name())
+			if info.IsDir() == true || strings.HasPrefix(info.Name(), tempFilePrefix) == true {
+				continue
+			}
+			if key := keyForFileName(info.Name()); strings.HasSuffix(key, suffix) == true {
+				keys = append(keys, key)
 			}
 		}
 	}
@@ -150,6 +153,14 @@ func (f *fileStorage) fileForRead(key string) (*os.File, error) {
 }
 
 // Returns a string where invalid characters (e.g. colon ":" which is not allowed in file names on Window) are removed from fname
+// removeInvalidFileNameCharacters returns the file name for a key.
+// A colon is not valid in file names on every system and is escaped (and so is the escape
+// character), so that keys which differ only in colons are stored in different files.
 func removeInvalidFileNameCharacters(fname string) string {
-	return strings.Replace(fname, ":", "", -1)
+	return strings.NewReplacer("%", "%25", ":", "%3A").Replace(fname)
+}
+
+// keyForFileName returns the key which is stored in a file
+func keyForFileName(fname string) string {
+	return strings.NewReplacer("%3A", ":", "%25", "%").Replace(fname)
 }
